@@ -136,8 +136,9 @@ theorem demand_good (hR : Resolves C absentOK) {s : St N I F V S} {n m : N}
   unfold demand at h
   split at h
   · cases h
-  · by_cases hm : m ∈ s.fmap
-    · simp only [hm, if_true] at h
+  · rename_i hms
+    by_cases hm : m ∈ s.fmap
+    · simp only [hm, if_true, hms, if_false] at h
       cases h
     · simp only [hm, if_false] at h
       obtain ⟨f, hf, hcase⟩ := hR.line n m hocc
@@ -157,7 +158,7 @@ theorem demand_good (hR : Resolves C absentOK) {s : St N I F V S} {n m : N}
         simp only [ha] at h
         rcases hcase with ⟨_, hmem⟩ | ⟨hun, _⟩
         · simp only [addForm_fmap ha hmem, if_true] at h
-          cases h
+          split at h <;> cases h
         · -- an unsupported form cannot have been loaded
           unfold addForm at ha
           simp [hun] at ha
